@@ -200,3 +200,57 @@ fn c26_link_error_span_first() {
     let e = ObjectFile::link(c, d).unwrap_err();
     let _ = e.span.first();
 }
+
+// ---------------------------------------------------------------------------------------------
+// C33 (recorded as a known finding, not repaired): the readiness poll and the data access are two
+// separate non-blocking lock attempts; when the lock is taken in between, the data access fails
+// silently and the instruction still completes.
+mod c33 {
+    use super::*;
+    use lc3_ensemble::sim::device::{BufferedDisplay, BufferedKeyboard};
+    use std::collections::VecDeque;
+    use std::sync::{Arc, RwLock};
+
+    fn sim_with(src: &str) -> Simulator {
+        let mut sim = Simulator::new(SimFlags { ignore_privilege: true, ..Default::default() });
+        sim.load_obj_file(&asm_dbg(src)).unwrap();
+        sim
+    }
+
+    #[test]
+    fn c33_display_byte_lost_when_lock_taken_after_ready_poll() {
+        let src = ".orig x3000\nLD R0, CH\nLOOP LDI R1, DSR\nBRzp LOOP\nSTI R0, DDR\nHALT\nCH .fill x41\nDSR .fill xFE04\nDDR .fill xFE06\n.end";
+        let buf = Arc::new(RwLock::new(Vec::new()));
+        let mut sim = sim_with(src);
+        sim.device_handler.set_display(BufferedDisplay::new(Arc::clone(&buf)));
+        sim.step_in().unwrap(); // LD
+        sim.step_in().unwrap(); // LDI DSR: ready (lock free)
+        sim.step_in().unwrap(); // BRzp not taken
+        assert_eq!(sim.pc, 0x3003, "the program saw the display ready");
+        {
+            let _held = buf.write().unwrap(); // another party holds the lock during the next instruction
+            sim.step_in().unwrap(); // STI DDR completes "successfully"
+        }
+        assert_eq!(sim.pc, 0x3004);
+        // the byte the program output is nowhere: this is the defect the static rule reports
+        assert_eq!(*buf.read().unwrap(), Vec::<u8>::new(), "known finding no longer reproduces: update known_findings.txt");
+    }
+
+    #[test]
+    fn c33_keyboard_stale_byte_when_lock_taken_after_ready_poll() {
+        let src = ".orig x3000\nLOOP LDI R1, KBSR\nBRzp LOOP\nLDI R0, KBDR\nHALT\nKBSR .fill xFE00\nKBDR .fill xFE02\n.end";
+        let buf = Arc::new(RwLock::new(VecDeque::from([b'Q'])));
+        let mut sim = sim_with(src);
+        sim.device_handler.set_keyboard(BufferedKeyboard::new(Arc::clone(&buf)));
+        sim.step_in().unwrap(); // LDI KBSR: ready
+        sim.step_in().unwrap(); // BRzp not taken
+        assert_eq!(sim.pc, 0x3002);
+        {
+            let _held = buf.write().unwrap();
+            sim.step_in().unwrap(); // LDI KBDR completes with the stale mirror word
+        }
+        let r0 = sim.reg_file[lc3_ensemble::ast::Reg::R0].get();
+        assert_ne!(r0, u16::from(b'Q'), "known finding no longer reproduces: update known_findings.txt");
+        assert_eq!(buf.read().unwrap().len(), 1, "the queued byte was not consumed");
+    }
+}
